@@ -712,6 +712,16 @@ namespace Pistache::Http::Experimental
             }
             if (parser.parse() == Private::State::Done)
             {
+                // An interim response (100 Continue, 102, 103) is not the answer to the
+                // request: the final response follows it
+                const auto code = static_cast<int>(parser.response.code());
+                if (code >= 100 && code < 200 && code != 101)
+                {
+                    const std::string rest = parser.unparsed();
+                    parser.reset();
+                    return rest.empty() || handleResponsePacket(rest.data(), rest.size());
+                }
+
                 if (requestEntry->timer)
                 {
                     requestEntry->timer->disarm();
